@@ -33,3 +33,24 @@ Theorem C08_novel_survives :
   In h (st_novel (run (init_state g root) es)) -> present (st_store (run (init_state g root) es)) h = true.
 Proof. exact novel_survives. Qed.
 Print Assumptions C08_novel_survives.
+
+Theorem C08_gc_generational_safe :
+  forall g old old_roots new_roots old' new',
+  gclosed g old -> gc_generational g old old_roots new_roots = Some (old', new') ->
+  (forall x, reach g (old_roots ++ new_roots) x -> memb x (new' ++ old') = true) /\ gclosed g old'.
+Proof. exact gc_generational_safe. Qed.
+Print Assumptions C08_gc_generational_safe.
+
+Theorem C08_oldgen_filter_needs_closed :
+  let g := [(1, [2]); (2, [])] in
+  gc_generational g [1] [1] [] = Some ([1], []) /\ reach g ([1] ++ []) 2 /\ memb 2 ([] ++ [1]) = false.
+Proof. exact oldgen_filter_needs_closed. Qed.
+Print Assumptions C08_oldgen_filter_needs_closed.
+
+Theorem C08_oracle_on_model :
+  forall g root, NoDup (map fst g) ->
+  (forall p r, In p g -> In r (snd p) -> present g r = true) ->
+  (forall p, In p g -> reach g [root] (fst p)) ->
+  oracle (g, root) (model_obs (g, root)) = true.
+Proof. exact oracle_on_model. Qed.
+Print Assumptions C08_oracle_on_model.
